@@ -61,6 +61,8 @@ def jobs(tier, seed):
     th = tier == 'thorough'
     out = []
     units = [(3, 2, [2]), (4, 2, [2]), (5, 2, [2]), (4, 3, [3]), (3, 4, [2, 2]), (3, 4, [4])]
+    out.append(('unit-nan-column-k4', dict(kind='unit', k=4, c=2, shape=[2], method='nan')))
+    out.append(('unit-nan-column-k5', dict(kind='unit', k=5, c=3, shape=[3], method='nan')))
     if th:
         units += [(7, 2, [2]), (5, 3, [3]), (4, 4, [2, 2])]
     for (k, c, shape) in units:
@@ -78,7 +80,7 @@ def jobs(tier, seed):
 
 def run_job(job, kind, k, c, shape, method):
     if kind == 'unit':
-        return unit(job, k, c, tuple(shape))
+        return unit(job, k, c, tuple(shape), nan_cols=(c - 1,) if method == 'nan' else ())
     if kind == 'vstack':
         return vstack(job)
     return e2e(job, method, tuple(shape), fortran=bool(k))
@@ -94,17 +96,20 @@ def _same(a, b):
     return z3.is_true(z3.simplify(ta == tb))
 
 
-def unit(job, k, c, shape):
-    der, steps, paths, ex = eu.explore(k, c, shape)
+def unit(job, k, c, shape, nan_cols=()):
+    der, steps, paths, ex = eu.explore(k, c, shape, nan_cols=nan_cols)
     job.absorb_explorer(ex)
     # the single-column reference run (same symbol names as column 0)
     _d1, _s1, paths1, ex1 = eu.explore(k, 1, ())
     job.absorb_explorer(ex1)
     ref = {}
+    ref_terms = {}
     for p in paths1:
         if p.exc is None:
             g, _m = eu.split_conds(p, 1)
             ref[g[0]] = _out_terms(p.result, 0)
+            ref_terms[g[0]] = list(eu.TERMS[(0, g[0])])
+    col_terms = {}
     groups = {j: {} for j in range(c)}
     for p in paths:
         if p.exc is not None:
@@ -115,10 +120,14 @@ def unit(job, k, c, shape):
             job.violation('shape', dict(key='C08:unit:shape', kind='unit', got=list(np.shape(r['val']))))
             continue
         g, mixed = eu.split_conds(p, c)
+        for j in range(c):
+            col_terms[(j, g[j])] = list(eu.TERMS[(j, g[j])])
         if not job.confirm('no decision mixes columns', not mixed):
             job.violation('mixed-decision', dict(key='C08:unit:decision-mixes-columns', kind='unit', k=k, c=c,
                                                  example=str(mixed[0])[:200]))
         for j in range(c):
+            if j in nan_cols:
+                continue            # nothing is claimed about a column without any usable estimate
             outs = _out_terms(r, j)
             used = set()
             for o in outs:
@@ -137,18 +146,30 @@ def unit(job, k, c, shape):
                     job.violation('choice-depends', dict(key='C08:unit:selection-depends-on-other-column', kind='unit', k=k, c=c, col=j))
     matched = [0]
     # (d) scalar run == array element: rename column j symbols to column 0 and compare with the reference table
+    pos = [z3.Real('h_%d_0' % i) > 0 for i in range(k)]
     for j in range(c):
+        if j in nan_cols:
+            continue
         for gkey, outs in groups[j].items():
             ren = tuple(sorted(_rename_sexpr(sx, j) for sx in gkey))
             rf = ref.get(ren)
             if rf is not None:
                 matched[0] += 1
-            if rf is None:
-                # decisions are explored in a different order in the 1-column run; fall back to a solver equivalence
+                same = all(_same(_rename_term(sn.lift(a), j, k), sn.lift(b)) for a, b in zip(outs, rf))
+                if not job.confirm('column %d equals the single-column run' % j, same):
+                    job.violation('scalar-differs', dict(key='C08:unit:array-element-differs-from-scalar-run', kind='unit', k=k, c=c, col=j))
                 continue
-            same = all(_same(_rename_term(sn.lift(a), j, k), sn.lift(b)) for a, b in zip(outs, rf))
-            if not job.confirm('column %d equals the single-column run' % j, same):
-                job.violation('scalar-differs', dict(key='C08:unit:array-element-differs-from-scalar-run', kind='unit', k=k, c=c, col=j))
+            # the decisions of this column do not coincide with one path of the 1-column run: solver equivalence against
+            # every path of the 1-column run that is compatible with them
+            mine = [_rename_term(t, j, k) for t in col_terms.get((j, gkey), [])]
+            for rkey, routs in ref.items():
+                both = pos + mine + ref_terms[rkey]
+                for a, b in zip(outs, routs):
+                    matched[0] += 1
+                    job.prove('column %d == single-column run wherever both paths apply' % j,
+                              _rename_term(sn.lift(a), j, k) == sn.lift(b), both,
+                              dict(key='C08:unit:array-element-differs-from-scalar-run', kind='unit', k=k, c=c, col=j,
+                                   nan_cols=list(nan_cols)))
     job.twin('paths', [z3.BoolVal(bool(paths) and bool(paths1))])
     job.twin('scalar-vs-array comparisons happened', [z3.BoolVal(matched[0] > 0)])
 
@@ -314,6 +335,23 @@ def replay(cex):
     rng = np.random.default_rng(0)
     if kind == 'unit':
         k, c, shape = cfg['k'], cfg['c'], tuple(cfg['shape'])
+        if cfg.get('method') == 'nan':
+            for trial in range(50):
+                dv = 1.0 + rng.normal(size=(k, c)) * 10.0 ** rng.integers(-6, 1)
+                dv[:, c - 1] = np.nan
+                hv = 0.5 ** np.arange(k)[:, None] * np.ones((1, c))
+                mk = lambda: ex.Richardson(step_ratio=2.0, step=2, order=2, num_terms=2)  # noqa
+                L = lim._Limit(); L.richardson = mk()
+                with cm.quiet():
+                    val, info = L._extrapolate(dv.copy(), hv.copy(), shape)
+                    L1 = lim._Limit(); L1.richardson = mk()
+                    v1, i1 = L1._extrapolate(dv[:, [0]].copy(), hv[:, [0]].copy(), ())
+                a = (np.ravel(val)[0], np.ravel(info.error_estimate)[0], np.ravel(info.final_step)[0])
+                s_ = (float(v1), float(i1.error_estimate), float(i1.final_step))
+                if a != s_:
+                    return True, ('with an all-NaN neighbour column, column 0 gives (value, error, final_step) = %r; evaluated alone it '
+                                  'gives %r' % (a, s_))
+            return False, 'an all-NaN column does not influence its neighbours'
         for trial in range(200):
             scale = 10.0 ** rng.integers(-8, 1)
             dv = 1.0 + rng.normal(size=(k, c)) * scale
